@@ -8,14 +8,14 @@ from props.c02 import show_value, canon_err
 
 LEVEL = "proof"
 MANIFEST = dict(
-    text="Lean 4 theorems over the structure/observable model for every block, every in-block (offset, segment) update (straddling, one byte of a  State inventory (notification_state_inventory): status_block_changed and the value decoders write no attribute; both structures write only the block."
+    text="Lean 4 theorems over the structure/observable model for every block, every in-block (offset, segment) update (straddling, one byte of a "
          "2-byte item, identical bytes, empty), every item with sane geometry (all shipped ones but D9, by C18) and every observer list: an item's "
          "observers are called exactly once each, in order, with (old, new) and the new block readable, iff its decoded value differs "
          "(item_notifies_iff_changed / notifies_iff_changed); the range filter loses nothing (skipped_item_unchanged, over the translated filter); "
          "silence when only foreign bits change; over any history of watch/unwatch/patch the observer list never holds duplicates and every call "
          "carries old != new (induction). Tie: translator for the intersection filter + differential correspondence of both real structure classes "
          "(GeckoStructure, GeckoAsyncStructure) with recording observers against the model driver."
-         ' Since session 3: histories include bound-method observers (equal, not identical), wholesale loads (set_status_block) followed by patches, and updates that flip the temperature unit under watched temperature items.',
+         ' Since session 3: histories include bound-method observers (equal, not identical), wholesale loads (set_status_block) followed by patches, and updates that flip the temperature unit under watched temperature items. State inventory (notification_state_inventory): status_block_changed and the value decoders write no attribute; both structures write only the block.',
     note="Trusted: Lean kernel; translator; correspondence harness. Temperature items: the model compares stored words, the code compares values converted "
          "with the current unit (equivalent; the conversion itself is C14). An observer that raises aborts the remaining notifications (Python semantics) - excluded. "
          "Patches running past byte 1023 are outside the hypotheses (the real code would grow the block).",
